@@ -40,3 +40,8 @@
    (= (shd (strSplit s p)) (ite (str.contains s p) (str.substr s 0 (str.indexof s p 0)) s))) :pattern ((strSplit s p)))))
 ; AX yamlParseF yields a Go value
 (assert (forall ((s String)) (! (not (= (yamlParseF s) VAbsent)) :pattern ((yamlParseF s)))))
+; AX strSplitN2: strings.SplitN(s, sep, 2) splits at the first separator: [before, after], or [s] if there is none
+(assert (forall ((s String)) (! (ite (str.contains s "=")
+     (= (strSplitN s "=" 2) (SCons (str.substr s 0 (str.indexof s "=" 0))
+                            (SCons (str.substr s (+ (str.indexof s "=" 0) 1) (- (str.len s) (+ (str.indexof s "=" 0) 1))) SNil)))
+     (= (strSplitN s "=" 2) (SCons s SNil))) :pattern ((strSplitN s "=" 2)))))
